@@ -317,6 +317,12 @@ pub fn gen(ctx: &Ctx, fam: &str, k: u64, r: &mut Rng) -> Program {
             cfg.conv = false;
             cfg.custom_ops = r.chance(1, 2);
             cfg.untracked_eighths = 1;
+            if r.chance(1, 2) {
+                // square operands of one of two sizes: products, sums and gradients of case after case have the very
+                // same element counts (what a buffer pool would hand from one to the next)
+                let n = *r.pick(&[32usize, 36]);
+                return gen_program_with_base(r, &cfg, &[n, n]);
+            }
             gen_program(r, &cfg)
         }
         "dag-long" => {
